@@ -22,6 +22,9 @@ Definition run_1906 (g : list Z) : io := fx_out (fibex_emit_with false (sig19 g)
 (* 1907: [sig] -> [BIT-POSITION; high-low; BIT-LENGTH] of the MULTIPLEXER/SWITCH element (fixed writer: same numbers) *)
 Definition run_1907 (g : list Z) : io :=
   let f := fibex_emit (sig19 g) in [[fx_pos f; bz (fx_hilo f); fx_len f]].
+(* 1908: [pdu_start] | [sig] -> as 1903 for a signal instance inside a part's PDU ; 1909: sig ... -> [segment start; segment end] *)
+Definition run_1908 (h g : list Z) : io := fx_out (fibex_emit_in (nthz h 0) (sig19 g)).
+Definition run_1909 (sgs : io) : io := let r := seg_range (-1, -1) (map sig19 sgs) in [[fst r; snd r]].
 (* 1904: [opt] | [sig] -> [byte; bit; length; motorola; signed] *)
 Definition run_1904 (h g : list Z) : io :=
   let c := csv_emit (nthz h 0) (sig19 g) in
@@ -56,6 +59,8 @@ Definition run_c19 (cmd : Z) (a : io) : io :=
   | 1903, [g] => run_1903 g
   | 1906, [g] => run_1906 g
   | 1907, [g] => run_1907 g
+  | 1908, [h; g] => run_1908 h g
+  | 1909, sgs => run_1909 sgs
   | 1904, [h; g] => run_1904 h g
   | 1905, [g] => run_1905 g
   | 1911, [g] => run_1911 g
